@@ -246,6 +246,13 @@ def main():
         vio_lines.append(ln)
     for r in undecided:
         print('UNDECIDED property=%s group=%s reason=%s' % (pid, r.group.name, r.reason[:400].replace('\n', ' ')))
+    # scratch hygiene: keep the work directory of a group only when it did not prove
+    import shutil
+    for g in groups:
+        r = res[g.name]
+        if r.status == 'PROVED' and r.workdir and os.path.isdir(r.workdir) and not os.environ.get('VERIF_KEEP'):
+            shutil.rmtree(r.workdir, ignore_errors=True)
+    shutil.rmtree(os.path.join(core.BUILD, 'trace'), ignore_errors=True) if not violations else None
     wall = time.time() - t0
     level = P.get('level', 'proof')
     proved_all = (not undecided) and (not violations) and (not knownhits) and n_ob == n_ok and n_ob > 0
